@@ -252,8 +252,9 @@ func (p *ocrPlugin) Report(ctx context.Context, t types.ReportTimestamp, _ types
 			continue
 		}
 
-		upkeepMaxGas := gas + p.conf.GasOverheadPerUpkeep
-		if totalReportGas+upkeepMaxGas > p.conf.GasLimitPerReport {
+		// sum in 64 bits: gas + overhead (and the running total) can exceed uint32
+		upkeepMaxGas := uint64(gas) + uint64(p.conf.GasOverheadPerUpkeep)
+		if uint64(totalReportGas)+upkeepMaxGas > uint64(p.conf.GasLimitPerReport) {
 			// We don't break here since there could be an upkeep with the lower
 			// gas limit so there could be a space for it in the report.
 			p.logger.Printf("skipping upkeep %s due to report limit, current capacity is %d, upkeep gas is %d with %d overhead", key, totalReportGas, gas, p.conf.GasOverheadPerUpkeep)
@@ -263,7 +264,7 @@ func (p *ocrPlugin) Report(ctx context.Context, t types.ReportTimestamp, _ types
 		p.logger.Printf("reporting %s to be performed with gas limit %d and %d overhead: %s", key, gas, p.conf.GasOverheadPerUpkeep, lCtx.Short())
 
 		toPerform = append(toPerform, result)
-		totalReportGas += upkeepMaxGas
+		totalReportGas += uint32(upkeepMaxGas) // fits: the sum is within GasLimitPerReport
 
 		// Don't exceed specified maxUpkeepBatchSize value in offchain config
 		if len(toPerform) >= p.conf.MaxUpkeepBatchSize {
